@@ -32,8 +32,23 @@ Definition dec_mx (b : bytes) : option (Z * list bytes) :=
   let? (p, r) := dec_uint 2 b in
   let? (ls, r') := dec_labels (S (length r)) r in
   if zlen r' =? 0 then Some (p, ls) else None.
-(* RFC 1035 3.3.14: one or more <character-string>s; a single string of at most 255 octets *)
-Definition enc_txt (s : bytes) : option bytes := enc_opaque 0 255 s.
+(* RFC 1035 3.3.14: TXT-DATA is one or more <character-string>s (3.3: a length octet and up to 255 octets).  A text of up to 255
+   octets is one string; a longer one is carried in strings of 255 octets and a last, shorter, one.  Decoding concatenates the
+   strings of the whole RDATA, which must hold at least one. *)
+Fixpoint txt_chunks (fuel : nat) (s : bytes) : list bytes :=
+  match fuel with
+  | O => [s]
+  | S f => if zlen s <=? 255 then [s] else firstn 255 s :: txt_chunks f (skipn 255 s)
+  end.
+Fixpoint enc_strings (l : list bytes) : option bytes :=
+  match l with [] => Some [] | x :: r => let? a := enc_opaque 0 255 x in let? b := enc_strings r in Some (a ++ b) end.
+Definition enc_txt (s : bytes) : option bytes := enc_strings (txt_chunks (length s) s).
+Fixpoint dec_strings (fuel : nat) (b : bytes) : option bytes :=
+  match fuel with
+  | O => None
+  | S f => if zlen b =? 0 then Some [] else let? (x, r) := dec_opaque 0 255 b in let? rest := dec_strings f r in Some (x ++ rest)
+  end.
+Definition dec_txt (b : bytes) : option bytes := if zlen b =? 0 then None else dec_strings (S (length b)) b.
 (* RFC 4034 3.1: type covered (2), algorithm (1), labels (1), original TTL (4), expiration (4), inception (4), key tag (2),
    signer's name, signature *)
 Definition enc_rrsig (ty alg labels ttl expiration inception key_tag : Z) (signer : list bytes) (sig : bytes) : option bytes :=
